@@ -27,6 +27,7 @@ ASSUMPTIONS = [
 REQUIRED_COUNTERS = ["grounded_checks", "volume_checks", "margin_checks", "conditional_monotone_checks", "inverse_roundtrips",
                      "mixed_derivative_checks"]
 MIN_NONTRIVIAL = {"quick": 30, "thorough": 300}
+THOROUGH_ROUNDS = 8      # the thorough tier runs the generators this many times (different seeds)
 
 
 def gen_cases(tier, seed):
